@@ -29,7 +29,13 @@ func ToDate32(t time.Time) Date32 {
 		return 0
 	}
 	_, offset := t.Zone()
-	return Date32((t.Unix() + int64(offset)) / secInDay)
+	sec := t.Unix() + int64(offset)
+	days := sec / secInDay
+	if sec%secInDay < 0 {
+		// Round down, not toward zero: times before 1970 belong to the day that started before them.
+		days--
+	}
+	return Date32(days)
 }
 
 // NewDate32 returns the Date32 corresponding to year, month and day in UTC.
